@@ -196,6 +196,7 @@ func (e *Engine) registerIntrinsics() {
 	e.intr["fmt.Errorf"] = intrErrorf
 	e.intr["errors.Is"] = intrErrorsIs
 	e.intr["errors.Unwrap"] = intrErrorsUnwrap
+	e.intr["errors.As"] = intrErrorsAs
 	e.intr["errors.Join"] = intrErrorsJoin
 	e.intr["fmt.Sprintf"] = func(e *Engine, c *CallCtx) []Outcome { return one(c.St, e.opaqueString(c.St, "sprintf")) }
 	e.intr["fmt.Sprint"] = func(e *Engine, c *CallCtx) []Outcome { return one(c.St, e.opaqueString(c.St, "sprint")) }
@@ -210,6 +211,7 @@ func (e *Engine) registerIntrinsics() {
 	e.intr["strings.Contains"] = intrStringsContains
 	e.intr["strings.HasPrefix"] = intrStringsHasPrefix
 	e.intr["strconv.Atoi"] = intrAtoi
+	e.intr["strconv.ParseInt"] = intrParseInt
 	e.intr["unicode/utf8.ValidString"] = func(e *Engine, c *CallCtx) []Outcome {
 		a := c.Args[0].(VString)
 		if as, ok := a.Concrete(); ok {
@@ -582,19 +584,122 @@ func intrErrorsUnwrap(e *Engine, c *CallCtx) []Outcome {
 	if err.Nil.IsTrue() {
 		return one(c.St, NilIface())
 	}
+	var outs []Outcome
+	st := c.St
 	if !err.Nil.IsFalse() {
-		unsupported("errors.Unwrap on maybe-nil error")
-	}
-	if p, ok := err.Val.(VPtr); ok {
-		if ve, ok := getPath(c.St.Obj(p.Obj).Val, p.Path).(VErr); ok {
-			if len(ve.Wraps) == 1 {
-				return one(c.St, ve.Wraps[0])
+		t, f := e.branch(st, err.Nil)
+		if t {
+			s2 := st
+			if f {
+				s2 = st.Fork()
 			}
-			return one(c.St, NilIface())
+			s2.Assume(err.Nil)
+			outs = append(outs, Outcome{St: s2, Ret: NilIface()})
+		}
+		if !f {
+			return outs
+		}
+		st.Assume(Not(err.Nil))
+	}
+	return append(outs, Outcome{St: st, Ret: e.unwrapOnce(st, err)})
+}
+
+// unwrapOnce: what errors.Unwrap returns for a non-nil error (the Unwrap() error method only;
+// multi-wrapping errors have no such method)
+func (e *Engine) unwrapOnce(st *State, err VIface) VIface {
+	if p, ok := err.Val.(VPtr); ok {
+		if o, ok := st.heap[p.Obj]; ok {
+			if ve, ok := getPath(o.Val, p.Path).(VErr); ok {
+				if len(ve.Wraps) == 1 && o.Typ != nil && !strings.Contains(o.Typ.String(), "wrapErrors") && !strings.Contains(o.Typ.String(), "joinError") {
+					return ve.Wraps[0].(VIface)
+				}
+				return NilIface()
+			}
 		}
 	}
-	unsupported("errors.Unwrap on %s", err.Dyn)
-	return nil
+	if err.Dyn == nil || !e.hasMethod(err.Dyn, "Unwrap") {
+		return NilIface()
+	}
+	ms := e.prog.MethodSets.MethodSet(err.Dyn)
+	var sel *types.Selection
+	for i := 0; i < ms.Len(); i++ {
+		if ms.At(i).Obj().Name() == "Unwrap" {
+			sel = ms.At(i)
+		}
+	}
+	fn := e.prog.MethodValue(sel)
+	if fn == nil || fn.Signature.Results().Len() != 1 || !types.Identical(fn.Signature.Results().At(0).Type(), errorType) {
+		return NilIface() // Unwrap() []error is not followed by errors.Unwrap
+	}
+	outs := e.CallFn(st, fn, []Value{err.Val}, nil, 30)
+	if len(outs) != 1 || outs[0].Panic != nil || outs[0].St != st {
+		unsupported("errors.Unwrap: user Unwrap on %s forks or panics", err.Dyn)
+	}
+	inner, ok := outs[0].Ret.(VIface)
+	if !ok {
+		unsupported("errors.Unwrap: user Unwrap returned %T", outs[0].Ret)
+	}
+	return inner
+}
+
+// errors.As(err, target): target is a non-nil pointer to a variable of a concrete error type
+// (or interface type); the chain is walked like errors.Is does. The dynamic types along a
+// modelled chain are concrete, so the result is decided per chain element without forking.
+func intrErrorsAs(e *Engine, c *CallCtx) []Outcome {
+	err := c.Args[0].(VIface)
+	tgt := c.Args[1].(VIface)
+	tp, ok := tgt.Val.(VPtr)
+	if !ok || !tgt.Nil.IsFalse() || !tp.Nil.IsFalse() {
+		unsupported("errors.As with a target that is not a definite pointer at %s", c.Site)
+	}
+	pt, ok := tgt.Dyn.Underlying().(*types.Pointer)
+	if !ok {
+		unsupported("errors.As target type %s", tgt.Dyn)
+	}
+	want := pt.Elem()
+	if !err.Nil.IsFalse() && !err.Nil.IsTrue() {
+		unsupported("errors.As on maybe-nil error at %s", c.Site)
+	}
+	var walk func(x VIface, depth int) bool
+	walk = func(x VIface, depth int) bool {
+		if depth > 12 || x.Nil.IsTrue() {
+			return false
+		}
+		if !x.Nil.IsFalse() {
+			unsupported("errors.As through a maybe-nil link at %s", c.Site)
+		}
+		if x.Dyn != nil {
+			if e.hasMethod(x.Dyn, "As") {
+				unsupported("errors.As through user-defined As on %s", x.Dyn)
+			}
+			match := types.Identical(x.Dyn, want)
+			if it, isI := want.Underlying().(*types.Interface); isI && !match {
+				match = types.Implements(x.Dyn, it)
+			}
+			if match {
+				var v Value = x.Val
+				if _, isI := want.Underlying().(*types.Interface); isI {
+					v = x
+				}
+				e.store(c.St, tp, v, c.Site)
+				return true
+			}
+		}
+		if p, ok := x.Val.(VPtr); ok {
+			if o, ok := c.St.heap[p.Obj]; ok {
+				if ve, ok := getPath(o.Val, p.Path).(VErr); ok {
+					for _, w := range ve.Wraps {
+						if walk(w.(VIface), depth+1) {
+							return true
+						}
+					}
+					return false
+				}
+			}
+		}
+		return walk(e.unwrapOnce(c.St, x), depth+1)
+	}
+	return one(c.St, BoolC(walk(err, 0)))
 }
 
 func intrErrorsJoin(e *Engine, c *CallCtx) []Outcome {
@@ -730,10 +835,76 @@ func intrStringsHasPrefix(e *Engine, c *CallCtx) []Outcome {
 	return one(c.St, containsAt(s, sub, 0))
 }
 
+// parseIntSym: strconv.ParseInt(s, 10, 64) / Atoi on a bounded symbolic string: forks into the
+// syntax-error outcome and the success outcome (optional sign, then one or more decimal
+// digits; at most 18 digits so that the value cannot overflow)
+func (e *Engine) parseIntSym(c *CallCtx, vs VString) []Outcome {
+	if n, ok := c.St.Conc(vs.Len); ok && int(n.Int()) <= len(vs.B) {
+		vs = VString{Len: n, B: vs.B[:n.Int()]} // the path knows the length
+	}
+	if len(vs.B) > 19 {
+		unsupported("strconv.ParseInt on a symbolic string longer than 19 bytes at %s", c.Site)
+	}
+	if len(vs.B) == 0 {
+		return one(c.St, VTuple{Elems: []Value{I64(0), e.newError(c.St, "strconv.NumError", VErr{Msg: "syntax"}, c.Site)}})
+	}
+	isDigit := func(b *Term) *Term {
+		return And(Not(CmpBV(OULt, b, BVC('0', 8))), Not(CmpBV(OULt, BVC('9', 8), b)))
+	}
+	signed := Or(Eq(vs.B[0], BVC('+', 8)), Eq(vs.B[0], BVC('-', 8)))
+	neg := Eq(vs.B[0], BVC('-', 8))
+	okc := []*Term{CmpBV(OSLt, I64(0), vs.Len), Or(Not(signed), CmpBV(OSLt, I64(1), vs.Len)), Not(CmpBV(OSLt, I64(18), vs.Len))}
+	acc := I64(0)
+	for i, b := range vs.B {
+		in := CmpBV(OSLt, I64(int64(i)), vs.Len)
+		digitPos := in
+		if i == 0 {
+			digitPos = And(in, Not(signed))
+		}
+		okc = append(okc, Or(Not(digitPos), isDigit(b)))
+		d := ZExt(BinBV(OSub, b, BVC('0', 8)), 64)
+		acc = Ite(digitPos, BinBV(OAdd, BinBV(OMul, acc, I64(10)), d), acc)
+	}
+	val := Ite(And(signed, neg), BinBV(OSub, I64(0), acc), acc)
+	ok := And(okc...)
+	t, f := e.branch(c.St, ok)
+	var outs []Outcome
+	if f {
+		s2 := c.St
+		if t {
+			s2 = c.St.Fork()
+		}
+		s2.Assume(Not(ok))
+		outs = append(outs, Outcome{St: s2, Ret: VTuple{Elems: []Value{I64(0), e.newError(s2, "strconv.NumError", VErr{Msg: "syntax"}, c.Site)}}})
+	}
+	if t {
+		c.St.Assume(ok)
+		outs = append(outs, Outcome{St: c.St, Ret: VTuple{Elems: []Value{val, NilIface()}}})
+	}
+	return outs
+}
+
+func intrParseInt(e *Engine, c *CallCtx) []Outcome {
+	base, ok1 := c.Args[1].(*Term)
+	bits, ok2 := c.Args[2].(*Term)
+	if !ok1 || !ok2 || !base.IsConst() || !bits.IsConst() || base.Int() != 10 || (bits.Int() != 64 && bits.Int() != 0) {
+		unsupported("strconv.ParseInt with base/bitSize other than 10/64 at %s", c.Site)
+	}
+	vs := c.Args[0].(VString)
+	if s, ok := vs.Concrete(); ok {
+		v, err := strconv.ParseInt(s, 10, 64)
+		if err != nil {
+			return one(c.St, VTuple{Elems: []Value{I64(0), e.newError(c.St, "strconv.NumError", VErr{Msg: err.Error()}, c.Site)}})
+		}
+		return one(c.St, VTuple{Elems: []Value{I64(v), NilIface()}})
+	}
+	return e.parseIntSym(c, vs)
+}
+
 func intrAtoi(e *Engine, c *CallCtx) []Outcome {
 	s, ok := c.Args[0].(VString).Concrete()
 	if !ok {
-		unsupported("strconv.Atoi on symbolic string at %s", c.Site)
+		return e.parseIntSym(c, c.Args[0].(VString))
 	}
 	v, err := strconv.Atoi(s)
 	if err != nil {
